@@ -582,14 +582,30 @@ class Engine(object):
             return False
         merged = {}
         order = []
+        def keep(e):
+            k = e.kind
+            if k == 'store':
+                return not local(e.addr)
+            if k == 'branch':
+                # only tests of opaque results matter to callers' rules (iterator comparisons)
+                return any(a[0] == 'ret' for a in atoms_of(e.cond))
+            if k in ('enter', 'leave'):
+                # expansions of internal helpers are not interesting by name; standard-library
+                # wrappers and public members are (operator algebra, erase-remove idiom)
+                p = self.oracle.pretty.get(e.callee, '') if e.callee else ''
+                return ' std::' in ' ' + p.split('(')[0] or 'gch::small_vector<' in p.split('(')[0]
+            return True
         for sp in paths:
-            evs = tuple(e for e in sp.events if not (e.kind == 'store' and local(e.addr)))
+            evs = tuple(e for e in sp.events if keep(e))
             stores = tuple((a, v) for (a, v) in sp.stores if not local(a))
             sig = (sp.exit, sp.ret, stores,
                    tuple((e.kind, e.callee, tuple(e.args) if e.args is not None else None, e.addr,
                           e.val, e.field, e.cond, e.taken, id(e.ins)) for e in evs))
             conds = tuple((c, v) for (c, v) in sp.conds
                           if not any(a[0] == 'alloca' and a[1] == f.name for a in atoms_of(c)))
+            # paths are merged only when they are indistinguishable including their conditions
+            # (conditions are what guard rules read)
+            sig = sig + (frozenset(conds),)
             if sig in merged:
                 old = merged[sig]
                 cs = set(old.conds) & set(conds)
